@@ -79,6 +79,17 @@ def step (_ : Unit) (line : String) : Unit × String :=
       | some ks, some ps => showE (fun l => s!"{l.length}" ++ String.join (l.map fun p => " " ++ pairStr p)) (decodeRegions ks ps)
       | _, _ => bad
     -- property ops: the property's own oracle evaluated on this side's functions
+    | "regclip" :: m :: id :: rest =>
+      match parseKs m id, parsePairs rest with
+      | some ks, some ps =>
+        match decodeRegions ks ps with
+        | .ok l =>
+          let want := ps.filterMap fun p => match decodeRegionRange ks p.1 p.2 with | .ok r => some r | .error _ => none
+          let clean := ps.all fun p => match decodeRegionRange ks p.1 p.2 with | .error .decode => false | _ => true
+          okStr (clean && l == want) "foreign-or-unclipped-region"
+        | .error .decode => "err decode"
+        | .error _ => "FAIL region-list-err"
+      | _, _ => bad
     | ["rt", m, id, k] =>
       match parseKs m id, parseHex k with
       | some ks, some k =>
